@@ -5,6 +5,7 @@
    exec_arg / post_p / post_x applied to what the earlier phase returned); the theorems
    below say what those adapter functions do to a payload, for all 8 style combinations. *)
 From Flyt Require Import Base Script Engine EngineCorr Lifecycle SpecEngine C17Proofs EngineSpecProofs.
+From Flyt Require Import C17Glue.
 
 Theorem C17_prep_to_exec :
   forall sp se v, fun_style sp -> fun_style se -> is_res v = false ->
@@ -32,10 +33,7 @@ Theorem C17_styles_interchangeable :
   (forall x, post_x FAny x = value_of (post_x FRes x)) /\
   (forall v, is_res v = false -> prep_ret FAny v = prep_ret FRes v) /\
   (forall v, is_res v = false -> exec_ret FAny v = exec_ret FRes v).
-Proof.
-  exact (conj styles_exec_arg_lemma (conj styles_post_p_lemma (conj styles_post_x_lemma
-        (conj styles_prep_ret_lemma styles_exec_ret_lemma)))).
-Qed.
+Proof. exact C17_styles_interchangeable_glue. Qed.
 Print Assumptions C17_styles_interchangeable.
 
 Theorem C17_batch_item :
